@@ -6,7 +6,8 @@ import MsqModel.Convert
 * `toksCreate d c` — the TOKEN-level printer of a table definition: what `PR.prCreateMysql c` (for `d = MYSQL`) resp.
   `PR.prCreateHive c` (every other dialect; the printer itself only serves HIVE) prints, as the tokens the lexer makes of it:
   `CREATE TABLE [IF NOT EXISTS]`, ONE back-quoted NAME token for the (schema-qualified) table name (`tableNameSrc`), one PARENTHESIS
-  group holding the comma-separated lines (column definitions, then — MySQL — `PRIMARY KEY`, `UNIQUE KEY`s, `KEY`s, `FULLTEXT KEY`s),
+  group holding the comma-separated lines (column definitions, then — MySQL — `PRIMARY KEY`, `UNIQUE KEY`s, `KEY`s, `FULLTEXT KEY`s,
+  `CONSTRAINT … FOREIGN KEY`s),
   then the table options in the printer's order.  A column definition is: back-quoted name, type word, a group with the
   comma-separated parameters, each bracketed when above the compute level (dropped by the Hive printer outside DECIMAL / VARCHAR / CHAR: `hiveDrops`), the attributes in the order
   of `prDefCol` (MySQL only: UNSIGNED, ZEROFILL, CHARACTER SET s, COLLATE s, GENERATED ALWAYS AS (e) mode, NULL, NOT NULL,
@@ -104,12 +105,26 @@ def toksIdxTail (i : Index) : List Tok :=
   grp (sepAll (i.cols.map toksIdxCol)) :: (optKw "USING" i.usingMethod ++ (optKw "COMMENT" i.comment ++ toksKbs i.keyBlockSize))
 def toksIndex (i : Index) : List Tok := kindToks i.kind ++ (toksIdxName i.name ++ toksIdxTail i)
 
+/-- a foreign-key action as `_parse_foreign_key_action` stores it -/
+def actToks (s : String) : List Tok :=
+  if s == "NO ACTION" then [opTok "NO", opTok "ACTION"] else if s == "SET NULL" then [opTok "SET", opTok "NULL"] else [opTok s]
+def toksFkAct (b : String) : Option String → List Tok
+  | some s => opTok "ON" :: opTok b :: actToks s
+  | none => []
+/-- a bracketed list of raw names -/
+def toksNames (ns : List String) : Tok := grp (sepAll (ns.map fun n => [srcTok n]))
+/-- `ASTForeignKeyExpression.source` -/
+def toksFk (k : ForeignKey) : List Tok :=
+  opTok "CONSTRAINT" :: srcTok k.constraint :: opTok "FOREIGN" :: opTok "KEY" :: toksNames k.slave :: opTok "REFERENCES" ::
+    srcTok k.master :: toksNames k.masterCols :: (toksFkAct "DELETE" k.onDelete ++ toksFkAct "UPDATE" k.onUpdate)
+
 def optList {α : Type} : Option α → List α | some a => [a] | none => []
 /-- the lines inside the bracket of CREATE TABLE -/
 def toksLines (c : CreateTable) : List (List Tok) :=
   c.columns.map (toksDefCol d) ++
     (if d == .MYSQL then
-      (optList c.primaryKey).map toksIndex ++ (c.uniqueKey.map toksIndex ++ (c.key.map toksIndex ++ c.fulltextKey.map toksIndex))
+      (optList c.primaryKey).map toksIndex ++ (c.uniqueKey.map toksIndex ++ (c.key.map toksIndex ++
+        (c.fulltextKey.map toksIndex ++ c.foreignKey.map toksFk)))
      else [])
 
 /-- `KW=s` (MySQL) -/
@@ -185,19 +200,25 @@ def optIntOK : Option Int → Bool | none => true | some n => intOK n
 def idxOK (k : IndexKind) (i : Index) : Bool :=
   i.kind == k && (if k == .primary then i.name.isNone else i.name.isSome) && i.cols.all idxColOK && optIntOK i.keyBlockSize
 def optIdxOK : Option Index → Bool | none => true | some i => idxOK .primary i
+def actOK : Option String → Bool
+  | none => true
+  | some s => ["NO ACTION", "SET NULL", "CASCADE", "RESTRICT"].contains s
+/-- a foreign key: the actions are the four the parser knows, the name lists split back -/
+def fkOK (k : ForeignKey) : Bool :=
+  segsOK (k.slave.map fun n => [srcTok n]) && segsOK (k.masterCols.map fun n => [srcTok n]) && actOK k.onDelete && actOK k.onUpdate
 /-- the value of a blank-separated option is not `=` (which the option parser skips) -/
 def valOK : Option String → Bool | none => true | some s => s != "="
 
 /-- **the CREATE TABLE fragment** -/
 def FragCreate (c : CreateTable) : Bool :=
-  tblOK c.table && c.columns.all (colOK d) && segsOK (toksLines d c) && c.foreignKey.isEmpty &&
+  tblOK c.table && c.columns.all (colOK d) && segsOK (toksLines d c) &&
     (if d == .MYSQL then
-      optIdxOK c.primaryKey && c.uniqueKey.all (idxOK .unique) && c.key.all (idxOK .normal) && c.fulltextKey.all (idxOK .fulltext) &&
+      c.foreignKey.all fkOK && optIdxOK c.primaryKey && c.uniqueKey.all (idxOK .unique) && c.key.all (idxOK .normal) && c.fulltextKey.all (idxOK .fulltext) &&
         optIntOK c.autoIncrement &&
         c.partitionedBy.isEmpty && c.rowFormatSerde.isNone && c.rowFormatDelimited.isNone && c.storedAsInputformat.isNone &&
         !c.storedAsTextfile && c.outputformat.isNone && c.location.isNone && c.tblproperties.isEmpty
      else
-      c.primaryKey.isNone && c.uniqueKey.isEmpty && c.key.isEmpty && c.fulltextKey.isEmpty && c.engine.isNone && c.autoIncrement.isNone &&
+      c.foreignKey.isEmpty && c.primaryKey.isNone && c.uniqueKey.isEmpty && c.key.isEmpty && c.fulltextKey.isEmpty && c.engine.isNone && c.autoIncrement.isNone &&
         c.defaultCharset.isNone && c.collate.isNone && c.rowFormat.isNone && c.statesPersistent.isNone &&
         c.partitionedBy.all (colOK d) && segsOK (c.partitionedBy.map (toksDefCol d)) && segsOK (c.tblproperties.map toksProp) &&
         valOK c.comment && valOK c.rowFormatSerde && valOK c.rowFormatDelimited && valOK c.storedAsInputformat && valOK c.outputformat &&
